@@ -1,4 +1,5 @@
 import Norad.Props.C03
+import Norad.Props.C03Sites
 #print axioms Layers.layer_ops_no_panic
 #print axioms Layers.save_no_panic_partial
 #print axioms Layers.save_no_panic_counterexample
@@ -14,3 +15,7 @@ import Norad.Props.C03
 #print axioms C18.glue_never_panics_value
 #print axioms C18.glue_never_panics_counterexample
 #print axioms C20.toKurbo_succeeds
+#print axioms Norad.C03Sites.source_panic_sites_all_classified
+#print axioms Norad.C03Sites.source_panic_sites_none_unclassified
+#print axioms Norad.C03Sites.table_keys_nodup
+#print axioms Norad.C03Sites.table_refs_present
